@@ -20,6 +20,9 @@ def main():
     if a.prop == 'C16':
         import model_edit
         return model_edit.main(a.prop, a.tier, a.seed, a.replay)
+    if a.prop in ('C11', 'C12'):
+        import yaml_check
+        return yaml_check.main(a.prop, a.tier, a.seed, a.replay)
     print('unknown property', a.prop)
     return 2
 
